@@ -138,8 +138,8 @@ def JOBS(tier):
         tot = sum(len(s) for s in sh)
         if n_t > 1 or n_T > 1:
             continue
-        if tier == 'quick' and n_T and tot > 3:
-            continue            # set_tempo shapes: up to 3 messages in quick, all sizes in thorough
+        if n_T and tot > (3 if tier == 'quick' else 5):
+            continue            # set_tempo shapes: up to 3 messages in quick, 5 in thorough
         total = sum(len(s) for s in sh)
         jobs.append((merge, {'shape': sh}, {'cost': 3 ** total, 'width': 0}))
     for sh in (['n', 'n'], ['ne', 'tn'], ['nn', 'e'], ['nen', 'ne'], [], ['', ''], ['n', 'T'], ['nT', 'tn']):
